@@ -250,6 +250,16 @@ def static_holds(c, x, tol=0):
         if t == 'SOS1Constraint':
             return len(nz) <= 1
         return len(nz) <= 1 or (len(nz) == 2 and nz[1] - nz[0] == 1)
+    if t in ('QuadraticConeConstraint', 'RotatedQuadraticConeConstraint'):
+        vals = [x[i] for i in d['args']]
+        if any(v is None for v in vals):
+            return None
+        sc = [fr(p) * v for p, v in zip(d['params'], vals)]
+        nh = 1 if t[0] == 'Q' else 2
+        lhs = sc[0] * sc[0] if nh == 1 else 2 * sc[0] * sc[1]
+        if any(fr(p).denominator > 2 ** 20 for p in d['params']):
+            lhs = lhs * Fr(10 ** 9 + 1, 10 ** 9) + Fr(1, 10 ** 12)
+        return all(v >= 0 for v in sc[:nh]) and lhs >= sum((v * v for v in sc[nh:]), Fr(0))
     if t.startswith('Complementarity'):
         e = body_val(d['expr'], x); v = x[d['var']]
         if e is None or v is None:
